@@ -20,6 +20,19 @@ def _chain_filter(clauses=None, completeness=False):
     return f
 
 
+def _token_filter(prefixes):
+    """Attribute a disagreement of the shared `token` stream to a property by the class of the case."""
+    def f(pid, d):
+        cl = d.get("class", "")
+        return any(cl.startswith(p) for p in prefixes)
+    return f
+
+
+_TOKEN_NOTE = ("Trusted: Lean kernel; Model/Envelope.lean and Model/Token.lean render envelope/ipld.go, the two tokenFromModel/toIPLD pairs and validate() by hand; "
+               "bindnode's schema strictness, dagcbor/dagjson, libp2p signatures, base58 and key unmarshalling are dependencies represented by model functions and oracle parameters "
+               "(the harness computes signature validity, the canonical key bytes and strings.ToLower with the libraries directly, never with go-ucan) — all tied differentially, not proved; "
+               "factgen for the schema tables, struct field order, nonce minimum, tags and varsig headers.")
+
 _CHAIN_NOTE = ("Trusted: Lean kernel; Model/Chain.lean renders invocation.go/proof.go/delegation.go by hand and is tied to the code by the differential `chain` stream "
                "(real signed tokens, verdicts compared in the direction this property needs), not by proof; the system clock moving less than an hour during a call; "
                "Ed25519 signatures and go-ipld-prime are used to build the tokens but are not part of this property.")
@@ -120,5 +133,29 @@ PROPS = {
         level_text="C16_tables (every code FromPubKey can emit is in Parse's whitelist and PubKey's table — over facts regenerated from did.go/crypto.go on every run), uvarint_roundtrip, C16_parse_print, C16_roundtrip, C16_eq_iff, C16_distinct_algorithms, C16_canonical, C16_one_principal_one_did, C16_print_injective, C16_reject_prefix/base/codec, C16_parsed_code. Go is compared with the model on keys of Ed25519, secp256k1 (native and ECDSA-typed, incl. short coordinates), P-256/384/521, RSA and on did:key strings with uncompressed/hybrid points, flipped parity, off-curve x, wrong lengths, malformed DER, non-minimal varints, foreign codes and multibases, bad base58.",
         level_note="Trusted: Lean kernel; factgen's extraction of the three multicodec tables; conditional on library contracts stated as hypotheses (base58 decode∘encode = id and injectivity; unmarshal∘marshal = id; marshal injective) — measured by the stream, not proved; mr-tron/base58, go-multibase, go-varint, libp2p crypto, crypto/x509 and crypto/elliptic are dependencies outside the proofs. The driver's base58 is executable glue, checked differentially against Go's.",
         assumptions=["base58btc and the key (un)marshallers are parameters of the model with explicit contracts"],
+    ),
+    "C06": dict(
+        props_module="Ucan.Props.C06",
+        streams=["token"],
+        filter=_token_filter(["token.envelope:sig-", "token.envelope:hdr-", "token.bitflip", "token.honest"]),
+        technique="Lean 4 proof that an accepted envelope was inspected to exactly [signature, {header, tagged payload}], that the header is the varsig header of the issuer key's type (table regenerated from varsig.go), that the signature verifies under the key of the issuer DID of the DECODED payload over the canonical encoding of the decoded SigPayload, and (with injectivity of the encoding, C08) that every decoded field is a function of the signed bytes; tied by harness-built, re-signed and corrupted envelopes incl. every single-bit flip",
+        level_text="C06_verified, C06_decoded_parts_are_signed, C06_fields_function_of_signed_bytes, C06_inspect_shape for every node and every instantiation of the crypto parameters. Go's six decoders are compared with the model on honest tokens (3–5 key algorithms), foreign/garbage/missing varsig headers, signatures by another key, truncated/empty/non-bytes signatures, and every third (every, thorough) single-bit flip of sealed Ed25519 tokens; accept/reject and all decoded fields.",
+        level_note=_TOKEN_NOTE + " Conditional on EUF-CMA of the signature schemes: the theorems reduce 'no accepted modification changes a field' to 'no valid signature on a different message', they do not prove unforgeability.",
+    ),
+    "C07": dict(
+        props_module="Ucan.Props.C07",
+        streams=["token"],
+        filter=_token_filter(["token.roundtrip"]),
+        technique="Lean 4 proofs that tokenFromModel∘toIPLD is the identity on every constructible delegation and invocation (all optional-field combinations, by case analysis closed with simp/omega), that the written payload conforms to the regenerated schema, and that unseal∘seal = id for any signature scheme with verify k m (sign m); tied by constructor-built tokens under every option mask × key algorithm × codec × decoder",
+        level_text="C07_dlg_payload_roundtrip, C07_inv_payload_roundtrip, dlg_payload_conforms, C07_dlg_unseal_seal (delegations; the invocation envelope level is covered by the stream only), with C16_tables giving 'a key that can issue can be verified'. Go: 128 option masks (policy, metadata, extreme accepted time bounds, nonce, subject/powerline, audience, cause, iat) × Ed25519/secp256k1/P-256/P-384/P-521 (RSA thorough) × {DAG-CBOR, DAG-JSON} × {generic, typed}: every field of the unsealed token equals the constructed one at whole-second resolution.",
+        level_note=_TOKEN_NOTE + " The component round trips are hypotheses of the theorems (DID: C16_parse_print; command: C15_parse_ok_iff; policy: C14_policy_roundtrip + the not-yet-proved selector print/parse idempotence).",
+    ),
+    "C10": dict(
+        props_module="Ucan.Props.C10",
+        streams=["token"],
+        filter=_token_filter(["token.field-", "literal.exact", "token.envelope:tag-", "token.envelope:sp-", "token.envelope:payload-not-map", "token.envelope:outer-extra"]),
+        technique="Lean 4 proofs of envelope and schema strictness over REGENERATED schema tables (decide-checked facts: tags differ, Go struct field order = schema order, nonce minimum ≥ 12), of tag-directed dispatch (no type confusion) and of the well-formedness of every decoded delegation; tied by the full product field × mutation × decoder, each correctly re-signed, and by every Go integer type at its boundaries through literal.Any/args.Add/meta.Add",
+        level_text="C10_tags_differ, C10_struct_order, C10_nonce_min, C10_schema_kinds_known, C10_schema_strict, C10_no_type_confusion_dlg/inv, C10_generic_dispatch, C10_decoded_dlg_wf (nonce ≥ 12, command in the grammar, time bounds within ±(2^53−1)). Go: every payload field of both token types × {dropped, null, 19 retypings incl. boundary integers, field-specific malformed values} + unknown key + envelope shape cases, re-signed, through 3 decoders (× DAG-JSON sample); 90 (type, value) integer cases exact-or-rejected.",
+        level_note=_TOKEN_NOTE,
     ),
 }
